@@ -1118,7 +1118,7 @@ func (vm *VM) run() (Addr, bool) {
 				vm.setString(c, vm.stringk(b, op < 0))
 			case generalRegister:
 				rv := vm.generalk(b, op < 0)
-				if k := rv.Kind(); k == reflect.Array || k == reflect.Struct {
+				if k := rv.Kind(); k == reflect.Array || k == reflect.Struct || k == reflect.Complex64 || k == reflect.Complex128 {
 					newRv := reflect.New(rv.Type()).Elem()
 					newRv.Set(reflect.ValueOf(rv.Interface()))
 					rv = newRv
